@@ -34,7 +34,13 @@ LEVEL_TEXT = ("Machine-checked Coq theorems over an executable two-layer model: 
               "select/filter/take of a list-backed frame list the plain-list result whatever is done to the source in between, no object-level "
               "program alters a list-backed frame; binding when the method is called is refuted for all three; real DataFrames are run through object-level "
               "programs (generator-backed initial frames, results left unlisted, every frame listed at the end) against this model in Coq and "
-              "against a strict plain-list oracle.")
+              "against a strict plain-list oracle. Round 3: sessions also own a pool of the caller's list objects (column names / positions, "
+              "masks, index lists) that are handed to collect / indexing / select / filter / take as the SAME object again and again on "
+              "frames with different layouts, and frames are appended to in place; proved: no session alters a caller's list, collect's "
+              "in-place rewrite loop (run on its copy) leaves exactly the resolved positions, no call alters a list-backed frame except an "
+              "append to that frame, which adds one row to it only; the no-copy reading of collect is refuted; the harness hands real list "
+              "objects round, looks at them after every call and at the end, and the oracle requires them unchanged and every result to be the "
+              "plain-list result for the list's original content.")
 LEVEL_NOTE = ("Trusted: Coq kernel + vm_compute; the hand-written code model (validated, not verified, against CPython generator / list() / slice "
               "semantics and the shipped compiled collector by the correspondence run); in the step-language model (stream prog, theorem "
               "C03_programs) a derived lazy frame is listed at once; deferred forcing is covered by the object-level model (stream heap), whose "
@@ -47,8 +53,8 @@ LEVEL_NOTE = ("Trusted: Coq kernel + vm_compute; the hand-written code model (va
               "correspondence. collect() with a set or bool column argument, predicates/masks that raise, and ragged rows are not exercised. No axioms (Print Assumptions: closed).")
 DESIGN_REF = "DESIGN.md section 8, C03"
 COQ_IMPORTS = "From Orso Require Import Model.C03 Model.C03_Heap."
-COQ_CHECKS = {"prog": "c03_check_both", "heap": "c03h_check"}
-COQ_SHOW = {"prog": "c03_show", "heap": "c03h_show"}
+COQ_CHECKS = {"prog": "c03_check_both", "heap": "c03h_check", "args": "c03a_check"}
+COQ_SHOW = {"prog": "c03_show", "heap": "c03h_show", "args": "c03a_show"}
 MODEL_VOS = ["Model/C03.vo", "Model/C03_Heap.vo"]
 RULE = ("random frames (0..12 rows x 0..4 columns of ints in -2..3, names-only or RelationSchema, one or two initial frames) and random "
         "programs of 1..6 operators, each applied to an earlier frame used as it is (list-backed) or re-wrapped as a generator-backed frame; "
@@ -56,7 +62,10 @@ RULE = ("random frames (0..12 rows x 0..4 columns of ints in -2..3, names-only o
         "head/tail/slice argument in -(n+2)..n+2 on frames of n rows, eager and lazy; a case is non-trivial when some step returned at "
         "least one row; distinct by canonical JSON; object-level stream: programs of 2..8 calls on frame objects (initial frames list- or "
         "generator-backed), biased to making select/filter/take results and observing their sources before they are listed, results never "
-        "listed when made, every frame listed once at the end; exhaustive: source backing x derived frame x observation(s) before first listing")
+        "listed when made, every frame listed once at the end; exhaustive: source backing x derived frame x observation(s) before first listing; "
+        "sessions with caller-owned lists: 600 random programs in which 45% of the calls are handed one of 3-4 pool objects (reordered column "
+        "subsets, sometimes with positions, a mask, an index list) and 8% append a row; exhaustive: one column list x pairs/triples of "
+        "collect/indexing/select on two frames with different layouts and on the projection; every frame-returning operator x append to source/result")
 TRUSTED = [
     "C03 code model (coq/Model/C03.v, coq/Base/PySlice.v): modelled, not verified: CPython slice clamping, list.index, zip/enumerate over a "
     "generator, set membership of int tuples, range(), list(x) = iter + length hint + drain, numpy object-array shape of collect_cython",
@@ -64,6 +73,10 @@ TRUSTED = [
     "C03 object-level model (coq/Model/C03_Heap.v): modelled, not verified: a generator function reads its closure's attributes when first "
     "advanced, a generator expression evaluates its outermost iterable when created, iter(generator) is the generator, iter(list) is private, "
     "zip asks its first argument first, a finished generator stays finished; fuel (hfuel) proved sufficient for the generators the theorems meet",
+    "C03 session model (section Args of coq/Model/C03_Heap.v): modelled, not verified: which Python objects a call is handed (the harness passes "
+    "pool objects by identity), list(columns) makes a new object, item assignment changes the object it is applied to, append() needs a "
+    "list and (RelationSchema) a dictionary; a list iterator is modelled as the rows it has yet to give, so cases that append to a frame "
+    "after a lazily backed frame was derived from it are judged by the Python oracle only (label heap:oracle-only)",
 ]
 ASSUMPTIONS = [
     "row values compare with an equivalence (Python ==); the harness uses small ints (including -1 and -2, equal hashes)",
@@ -370,7 +383,9 @@ def oracle(case, obs):
 
 # ----------------------------------------------------------------------------- Coq literals
 def _nm(s):
-    return L.N(ord(s) - 97)
+    if isinstance(s, str) and len(s) == 1 and "a" <= s <= "z":
+        return L.N(ord(s) - 97)
+    return L.N(99)      # not a name the harness ever uses: never equal to a model name
 
 
 def _names(ns):
@@ -488,7 +503,7 @@ def nontrivial_key(case, obs):
     if "hsteps" in case:
         if not any(o[0] == "rows" and o[1] for o in obs["steps"]) and not any(x[0] != "!raise" and x[1] for x in obs["final"]):
             return None
-        return repr((case["frames"], case["hsteps"]))
+        return repr((case["frames"], case.get("pool"), case["hsteps"]))
     if not any(some_row(o["out"]) for o in obs):
         return None
     return repr((case["frames"], case["steps"]))
@@ -575,6 +590,13 @@ def corpus():
     yield _hcase([_hframe("ab", H_ROWS, gen=True)], [(0, ["take", [0, 1, 2]]), (0, ["rowcount"]), (1, ["list"])])
     yield _hcase([_hframe("ab", H_ROWS)], [(0, ["select", ["a", "b"]]), (1, ["filter", [1, 0, 1]]), (1, ["take", [2, 0]]), (1, ["head", 9]),
                                             (2, ["list"]), (3, ["len"])])
+    # round 3: one caller-owned list of column names handed to collect, select, collect on the projection, indexing of a reordered frame
+    yield dict(_hcase([_hframe("abc", [[1, 2, 3], [4, 5, 6]]), _hframe("cba", [[3, 2, 1], [6, 5, 4]])],
+                      [(0, ["collect", {"ref": 0}, None]), (0, ["select", {"ref": 0}]), (2, ["mat"]), (2, ["collect", {"ref": 0}, None]),
+                       (0, ["getitem", {"ref": 1}]), (1, ["getitem", {"ref": 1}])]),
+               pool=[["c", "a"], ["b", "c"]])
+    yield _hcase([_hframe("abc", [[1, 2, 3], [4, 5, 6]])], [(0, ["head", 1]), (0, ["append", [7, 8, 9]]), (1, ["append", [0, 0, 0]]), (0, ["slice", 0, None]),
+                                                         (2, ["append", [1, 1, 1]]), (0, ["add", 0]), (0, ["append", [2, 2, 2]])])
 
 
 def _window_cases(nmax):
@@ -595,11 +617,13 @@ def _window_cases(nmax):
 
 def exhaustive(tier):
     nmax = 3 if tier == "quick" else 5
-    return itertools.chain(_window_cases(nmax), _deferred_cases(tier)), (
+    return itertools.chain(_window_cases(nmax), _deferred_cases(tier), _aliasing_cases(tier)), (
         f"every head/tail/slice(offset)/slice(offset,length)/row/to_batches/collect-limit argument in -(n+2)..n+2 "
         f"on one-column frames of n = 0..{nmax} rows, list-backed and generator-backed; every combination of source backing "
         f"(list, generator, select/filter/take result) x derived frame (select, filter, take, head, distinct) x observation(s) of the "
-        f"source or of a sibling made before the derived frame is first listed")
+        f"source or of a sibling made before the derived frame is first listed; one caller-owned column list (5 contents) handed to every "
+        f"pair / triple of collect, indexing, select calls on two frames with different column layouts (and on the projection); every "
+        f"frame-returning operator followed by append() to the source, the result or both")
 
 
 def _rand_frame(rng, names=None):
@@ -705,12 +729,16 @@ def generate(rng, tier):
     count = 1200 if tier == "quick" else 16000
     for i in range(count):
         yield _rand_hcase(rng, malformed=(i % 6 == 5))
+    count = 600 if tier == "quick" else 10000
+    for i in range(count):
+        yield _rand_hcase(rng, malformed=(i % 6 == 5), with_pool=True)
 
 
 def search(rng):
     while True:
         yield _rand_case(rng, malformed=False)
         yield _rand_hcase(rng, malformed=False)
+        yield _rand_hcase(rng, malformed=False, with_pool=True)
 
 
 def shrink(case):
@@ -756,13 +784,25 @@ def _observe_heap(case):
         rows = [tuple(r) for r in f["rows"]]
         env.append(DataFrame(rows=(r for r in rows), schema=sc) if f.get("gen") else DataFrame(rows=rows, schema=sc))
     steps = []
+    pool = [_pool_object(v) for v in case.get("pool", [])]     # the caller's own list objects, handed over again and again
+    args = []
+
+    def arg(x, conv):
+        """the argument of a call: pool object k ITSELF for {"ref": k}, else a list built for this call"""
+        if isinstance(x, dict):
+            return pool[x["ref"] % len(pool)]
+        return conv(x)
+
     for st in case["hsteps"]:
         a = env[st["src"] % len(env)]
         op = st["op"]
         k = op[0]
         new = []
         try:
-            if k == "head":
+            if k == "append":
+                a.append(tuple(op[1]))
+                o = ["new", []]
+            elif k == "head":
                 new = [a.head(op[1])]
             elif k == "tail":
                 new = [a.tail(op[1])]
@@ -771,11 +811,11 @@ def _observe_heap(case):
             elif k == "query":
                 new = [a.query(_pred(op[1]))]
             elif k == "filter":
-                new = [a.filter([bool(m) for m in op[1]])]
+                new = [a.filter(arg(op[1], lambda x: [bool(m) for m in x]))]
             elif k == "take":
-                new = [a.take(list(op[1]))]
+                new = [a.take(arg(op[1], list))]
             elif k == "select":
-                new = [a.select(list(op[1]))]
+                new = [a.select(arg(op[1], list))]
             elif k == "select1":
                 new = [a.select(op[1])]
             elif k == "distinct":
@@ -785,7 +825,7 @@ def _observe_heap(case):
             elif k == "batches":
                 new = list(a.to_batches(op[1]))
             elif k in ("collect", "getitem"):
-                c = a.collect(_cols_arg(op[1]), op[2]) if k == "collect" else a[_cols_arg(op[1])]
+                c = a.collect(arg(op[1], _cols_arg), op[2]) if k == "collect" else a[arg(op[1], _cols_arg)]
                 o = ["cols", [[int(v) for v in col] for col in c]]
             elif k in ("collect1", "getitem1"):
                 c = a.collect(op[1], op[2]) if k == "collect1" else a[op[1]]
@@ -813,21 +853,57 @@ def _observe_heap(case):
             o = ["raise", type(e).__name__]
             new = []
         steps.append(o)
+        r = _ref_of(op)
+        args.append(None if r is None else _canon_items(pool[r % len(pool)]))     # the caller's list after the call
         env.extend(new)
-    return {"steps": steps, "final": [_listing(df) for df in env]}
+    final = [_listing(df) for df in env]
+    return {"steps": steps, "args": args, "final": final, "pool": [_canon_items(x) for x in pool]}
+
+
+def _pool_object(v):
+    """a fresh Python list for one pool entry of a case (JSON: str = column name, int, true/false)"""
+    return [x for x in v]
+
+
+def _canon_items(lst):
+    """canonical, JSON-able content of a caller's list: names stay str, ints int, bools '!T'/'!F' (True == 1 must not hide a change)"""
+    out = []
+    for x in list(lst):
+        if isinstance(x, bool):
+            out.append("!T" if x else "!F")
+        elif isinstance(x, str):
+            out.append(x)
+        elif isinstance(x, int) or hasattr(x, "__index__"):
+            out.append(int(x))
+        else:
+            out.append("!?" + type(x).__name__)
+    return out
+
+
+def _ref_of(op):
+    for x in op[1:]:
+        if isinstance(x, dict):
+            return x["ref"]
+    return None
+
+
+def _deref(op, pool):
+    """the call with the ORIGINAL content of the pool object written out"""
+    return [list(pool[x["ref"] % len(pool)]) if isinstance(x, dict) else x for x in op]
 
 
 class _Ref:
     """One frame of the reference environment of the object-level oracle.
+    version: bumped by every append to the frame (a lazily backed frame derived before an append: the property is silent);
     rows: what the property says the frame's rows are (None = the property does not say);
     status: 'list' (list-backed), 'fresh' (backed by a generator nothing has advanced yet),
             'spent' (backed by a generator that has been advanced: one-shot, the property is silent
             about what it still yields except that it is a tail of its rows);
     deriv: for the fresh result of select/filter/take: (kind, argument, parent index, parent's status at creation)"""
-    __slots__ = ("names", "sid", "rows", "status", "deriv")
+    __slots__ = ("names", "sid", "rows", "status", "deriv", "version")
 
     def __init__(self, names, sid, rows, status, deriv=None):
-        self.names, self.sid, self.rows, self.status, self.deriv = names, sid, rows, status, deriv
+        self.names, self.sid, self.rows, self.status, self.deriv, self.version = names, sid, rows, status, deriv, 0
 
 
 def _plain_expect(names, sid, rows, op, other=None):
@@ -856,9 +932,11 @@ def _yield_of(env, d):
         return None
     if D.deriv is None:
         return D.rows
-    kind, arg, parent, parent_was = D.deriv
+    kind, arg, parent, parent_version = D.deriv
     S = env[parent]
-    if S.status == "list":
+    if S.version != parent_version:
+        src = None            # the source was appended to after the call: the property does not say which rows count
+    elif S.status == "list":
         src = S.rows
     elif S.status == "fresh":
         src = _yield_of(env, parent)
@@ -876,7 +954,8 @@ def _oracle_heap(case, obs):
     fr = case["frames"]
     env = [_Ref(list(f["names"]), (_schema_id(fr, j) if f["typed"] else None), [list(r) for r in f["rows"]], "fresh" if f.get("gen") else "list")
            for j, f in enumerate(fr)]
-    prog = [(st, o, False) for st, o in zip(case["hsteps"], obs["steps"])]
+    pool0 = case.get("pool", [])
+    prog = [(dict(st, op=_deref(st["op"], pool0), ref=_ref_of(st["op"]), t=t), o, False) for t, (st, o) in enumerate(zip(case["hsteps"], obs["steps"]))]
     n_final = len(obs["final"])
     prog += [({"src": j, "op": ["list"]}, x, True) for j, x in enumerate(obs["final"])]
     for t, (st, o, final) in enumerate(prog):
@@ -893,6 +972,24 @@ def _oracle_heap(case, obs):
             if o[0] != D.names:
                 return f"{where}: column names are {o[0]}, required {D.names}"
             o = ["rows", o[1]]
+        # ---------------- the caller's own list must come back from every call as it went in
+        if st.get("ref") is not None:
+            before = _canon_items(pool0[st["ref"] % len(pool0)])
+            after = obs["args"][st["t"]]
+            if after != before:
+                return f"{where}: the call was handed the caller's list {before} and left it as {after}"
+        # ---------------- append: the harness's probe for shared row containers (not an operator of the property)
+        if k == "append":
+            if o[0] == "raise":
+                continue
+            if o != ["new", []]:
+                return f"{where}: got {o}"
+            D.version += 1
+            if D.status == "list" and D.rows is not None:
+                D.rows = D.rows + [list(op[1])]
+            else:
+                D.rows = None
+            continue
         # ---------------- calls that return a lazily backed frame: nothing is touched
         if k in H_LAZY:
             want = list(op[1]) if k == "select" else [op[1]] if k == "select1" else D.names
@@ -905,7 +1002,7 @@ def _oracle_heap(case, obs):
             if o != ["new", [want]]:
                 return f"{where}: required one new frame with columns {want}, got {o}"
             kind = "select" if k == "select1" else k
-            env.append(_Ref(want, None if kind == "select" else D.sid, None, "fresh", (kind, want if kind == "select" else op[1], d, D.status)))
+            env.append(_Ref(want, None if kind == "select" else D.sid, None, "fresh", (kind, want if kind == "select" else op[1], d, D.version)))
             continue
         # ---------------- everything else iterates the frame's rows: to the end (materialising or not)
         was = D.status
@@ -973,6 +1070,8 @@ def _oracle_heap(case, obs):
                     env.append(_Ref(ns, D.sid if k != "select" else None, None, "list"))
     if n_final != len(env):
         return f"final listing: the harness listed {n_final} frames, the reference has {len(env)}"
+    if obs.get("pool", []) != [_canon_items(v) for v in pool0]:
+        return f"the caller's lists {[_canon_items(v) for v in pool0]} were left as {obs.get('pool')}"
     return None
 
 
@@ -995,7 +1094,83 @@ def _coq_hout(o):
     return "(HVal %s)" % _coq_out(o)
 
 
+def _aitem(x):
+    if x == "!T" or x is True:
+        return "(ABool true)"
+    if x == "!F" or x is False:
+        return "(ABool false)"
+    if isinstance(x, str):
+        return "(AName %s)" % (_nm(x) if len(x) == 1 and "a" <= x <= "z" else L.N(99))
+    return "(AInt %s)" % L.Z(int(x))
+
+
+def _argobj(v):
+    return "(%s : argobj N)" % L.lst(_aitem(x) for x in v)
+
+
+def _coq_aop(op):
+    k = op[0]
+    r = _ref_of(op)
+    if k == "append":
+        return "(AAppend %s)" % _row(op[1])
+    if r is None:
+        return "(APlain %s)" % _coq_hop(op)
+    if k == "collect":
+        return "(ACollect %s %s)" % (L.nat(r), L.opt(None if op[2] is None else L.Z(op[2])))
+    return "(%s %s)" % ({"getitem": "AGetItem", "select": "ASelect", "filter": "AFilter", "take": "ATake"}[k], L.nat(r))
+
+
+def _needs_args_stream(case):
+    return bool(case.get("pool")) or any(st["op"][0] == "append" for st in case["hsteps"])
+
+
+def _coq_can_follow(case, obs):
+    """The model keeps a list iterator as the rows it has yet to give; CPython's looks at the live list. They differ only when
+    a frame is appended to while an iterator over its list is under way, so a case that appends to a frame from which a
+    lazily backed frame was derived earlier is judged by the oracle alone."""
+    nenv = len(case["frames"])
+    parents = set()
+    for st, o in zip(case["hsteps"], obs["steps"]):
+        d = st["src"] % nenv
+        if st["op"][0] == "append" and d in parents:
+            return False
+        if st["op"][0] in H_LAZY and o[0] == "new":
+            parents.add(d)
+        if o[0] == "new":
+            nenv += len(o[1])
+    return True
+
+
+def _to_coq_args(case, obs):
+    if not _coq_can_follow(case, obs):
+        return None
+    fr = case["frames"]
+    fs = []
+    for j, f in enumerate(fr):
+        kind = "(Typed %s)" % L.nat(_schema_id(fr, j)) if f["typed"] else "Untyped"
+        fs.append("(mkHI (mkS %s %s) %s %s)" % (kind, _names(f["names"]), _rows(f["rows"]), L.boolean(bool(f.get("gen")))))
+    pool = [_argobj(v) for v in case.get("pool", [])]
+    prog, seen = [], []
+    for st, o, after in zip(case["hsteps"], obs["steps"], obs["args"]):
+        prog.append("(mkAStep %s %s)" % (L.nat(st["src"]), _coq_aop(st["op"])))
+        seen.append("(AOut %s)" % _coq_hout(o))
+        if after is not None:      # look at the caller's list right after the call
+            prog.append("(mkAStep 0 (APeek %s))" % L.nat(_ref_of(st["op"])))
+            seen.append("(AArg %s)" % _argobj(after))
+    for j, x in enumerate(obs["final"]):
+        prog.append("(mkAStep %s (APlain HList))" % L.nat(j))
+        seen.append("(AOut %s)" % _coq_hout(["raise", x[1]] if x[0] == "!raise" else ["rows", x[1]]))
+    for j, v in enumerate(obs["pool"]):
+        prog.append("(mkAStep 0 (APeek %s))" % L.nat(j))
+        seen.append("(AArg %s)" % _argobj(v))
+    term = "((%s : list (hinit Z N)), (%s : list (argobj N)), (%s : list zastep), (%s : list zaout))" % (
+        L.lst(fs), L.lst(pool), L.lst(prog), L.lst(seen))
+    return ("args", term)
+
+
 def _to_coq_heap(case, obs):
+    if _needs_args_stream(case):
+        return _to_coq_args(case, obs)
     fr = case["frames"]
     fs = []
     for j, f in enumerate(fr):
@@ -1017,10 +1192,22 @@ def _classify_heap(case, obs):
     nenv = len(case["frames"])
     lazy_at = {}      # env index of an unforced lazy result -> its source
     touched = set()   # sources observed since a lazy child of theirs was made
+    if case.get("pool"):
+        yield "heap:session-with-caller-lists"
+    used = {}
     for st, o in zip(case["hsteps"], obs["steps"]):
         d = st["src"] % nenv
         k = st["op"][0]
         yield "heap:op:" + k
+        r = _ref_of(st["op"])
+        if r is not None:
+            r %= len(case["pool"])
+            yield "heap:argument-is-a-caller-list"
+            if r in used:
+                yield "heap:caller-list-used-again"
+                if used[r] != d:
+                    yield "heap:caller-list-used-again-on-another-frame"
+            used[r] = d
         if o[0] == "raise":
             yield "heap:raised:" + str(o[1])
         if k in H_LAZY and o[0] == "new":
@@ -1036,12 +1223,21 @@ def _classify_heap(case, obs):
             nenv += len(o[1])
     if lazy_at:
         yield "heap:lazy-result-first-listed-in-the-final-sweep"
+    if _needs_args_stream(case) and not _coq_can_follow(case, obs):
+        yield "heap:oracle-only(append-under-a-lazy-child)"
 
 
 def _shrink_heap(case):
     steps = case["hsteps"]
     for i in range(len(steps) - 1, -1, -1):
         yield dict(case, hsteps=steps[:i] + steps[i + 1:])
+    pool = case.get("pool", [])
+    for i, st in enumerate(steps):
+        if _ref_of(st["op"]) is not None:      # the same call with a list of its own
+            yield dict(case, hsteps=steps[:i] + [dict(st, op=_deref(st["op"], pool))] + steps[i + 1:])
+    for k, v in enumerate(pool):
+        for i in range(len(v)):
+            yield dict(case, pool=pool[:k] + [v[:i] + v[i + 1:]] + pool[k + 1:])
     for j, f in enumerate(case["frames"]):
         if len(case["frames"]) > 1:
             yield dict(case, frames=case["frames"][:j] + case["frames"][j + 1:])
@@ -1102,7 +1298,53 @@ def _deferred_cases(tier):
                     yield _hcase(frames, ops)
 
 
-def _rand_hcase(rng, malformed=False):
+def _aliasing_cases(tier):
+    """the caller's lists handed to two or three calls in a row, on frames with different column layouts; and append() as the
+    probe for frames that share one row container"""
+    abc = [[1, 2, 3], [4, 5, 6], [7, 8, 9]]
+    frames = lambda gen: [_hframe("abc", abc), _hframe("cba", [[30, 20, 10], [60, 50, 40]], gen=gen)]  # noqa: E731
+    calls = [lambda f: (f, ["collect", {"ref": 0}, None]), lambda f: (f, ["getitem", {"ref": 0}]), lambda f: (f, ["select", {"ref": 0}]),
+             lambda f: (f, ["collect", {"ref": 0}, 1])]
+    lists = [["c", "a"], ["b"], ["a", "b", "c"], ["c", 0], ["b", "c"]] + ([["a", "c", "b"], [2, "a"], ["a", "a"]] if tier != "quick" else [])
+    for v in lists:
+        for gen in (False, True):
+            for c1 in calls[:3]:
+                for f1 in (0, 1):
+                    for c2 in calls[:3]:
+                        for f2 in (0, 1, 2):      # frame 2 exists when the first call was a select: the projection itself
+                            if f2 == 2 and c1 is not calls[2]:
+                                continue
+                            yield dict(_hcase(frames(gen), [c1(f1), c2(f2)]), pool=[list(v)])
+            if tier != "quick" or not gen:
+                for c1 in calls:
+                    for c2 in calls:
+                        for c3 in calls[:3]:
+                            yield dict(_hcase(frames(gen), [c1(0), c2(1), c3(0)]), pool=[list(v)])
+    # masks and index lists come round again too
+    for gen in (False, True):
+        pool = [[True, False, True], [2, 0], ["c", "a"]]
+        yield dict(_hcase(frames(gen), [(0, ["filter", {"ref": 0}]), (1, ["filter", {"ref": 0}]), (2, ["filter", {"ref": 0}])]), pool=pool)
+        yield dict(_hcase(frames(gen), [(0, ["take", {"ref": 1}]), (0, ["collect", {"ref": 1}, None]), (1, ["take", {"ref": 1}]), (1, ["getitem", {"ref": 1}])]), pool=pool)
+        yield dict(_hcase(frames(gen), [(0, ["select", {"ref": 2}]), (2, ["take", {"ref": 1}]), (2, ["collect", {"ref": 2}, None]), (3, ["getitem", {"ref": 2}])]), pool=pool)
+    # append to a frame / to what was derived from it: nothing else may move
+    ab = _hframe("ab", H_ROWS)
+    derive = [["head", 2], ["tail", 9], ["slice", 0, None], ["slice", -9, None], ["query", ["true"]], ["distinct"], ["add", 0], ["batches", 9], ["batches", 2],
+              ["filter", [1, 1, 1]], ["take", [0, 1, 2]], ["select", ["a", "b"]]]
+    for dv in derive:
+        lazy = dv[0] in H_LAZY
+        for first in ("source", "result", "both"):
+            ops = [(0, dv)] + ([(1, ["mat"])] if lazy else [])
+            if first in ("source", "both"):
+                ops.append((0, ["append", [7, 8]]))
+            if first in ("result", "both"):
+                ops.append((1, ["append", [9, 9]]))
+            ops.append((0, ["len"]))
+            yield _hcase([ab], ops)
+    yield _hcase([_hframe("ab", H_ROWS, gen=True)], [(0, ["append", [7, 8]]), (0, ["len"]), (0, ["append", [7, 8]])])
+    yield _hcase([_hframe("ab", H_ROWS, typed=True)], [(0, ["append", [7, 8]]), (0, ["head", 1]), (1, ["append", [7, 8]])])
+
+
+def _rand_hcase(rng, malformed=False, with_pool=False):
     names, rows = _rand_frame(rng)
     if not names and rng.random() < 0.7:
         names, rows = _rand_frame(rng, rng.sample("abcd", rng.choice([1, 2, 3])))
@@ -1112,6 +1354,20 @@ def _rand_hcase(rng, malformed=False):
         _, rows2 = _rand_frame(rng, names)
         frames.append(_hframe(names, rows2, gen=rng.random() < 0.5, typed=typed, share=0 if rng.random() < 0.8 else None))
     case = {"frames": frames, "hsteps": []}
+    if with_pool:
+        n0 = len(rows)
+        pool = []
+        for _ in range(rng.randint(1, 2)):      # column lists: names (reordered subsets), sometimes positions mixed in
+            cnt = rng.randint(1, max(1, len(names)))
+            v = rng.sample(list(names), min(cnt, len(names))) if names else []
+            if names and rng.random() < 0.25:
+                v.insert(rng.randint(0, len(v)), rng.randint(0, len(names) - 1))
+            if malformed and rng.random() < 0.4:
+                v.append("z")
+            pool.append(v)
+        pool.append([rng.random() < 0.6 for _ in range(rng.choice([n0, n0, max(0, n0 - 1), n0 + 1]))])      # a mask
+        pool.append([rng.randint(0, n0 + 1) for _ in range(rng.randint(0, n0 + 1))])                        # indexes
+        case["pool"] = pool
     # plain-list bookkeeping (names, rows of every frame as if nothing were lazy) to keep arguments in range
     P = _Plain(case)
     has_child = []
@@ -1127,7 +1383,20 @@ def _rand_hcase(rng, malformed=False):
         nm, sid, rws = P.env[d]
         n = len(rws)
         u = rng.random()
-        if u < 0.34:
+        if with_pool and u < 0.45:
+            # hand one of the caller's lists to a call (the same objects come round again and again)
+            r = rng.randint(0, len(case["pool"]) - 1)
+            v = case["pool"][r]
+            if v and isinstance(v[0], bool):
+                op = ["filter", {"ref": r}]
+            elif all(isinstance(x, int) for x in v) and rng.random() < 0.6:
+                op = ["take", {"ref": r}]
+            else:
+                op = rng.choice([["collect", {"ref": r}, rng.choice([None, None, 1, n])], ["getitem", {"ref": r}], ["select", {"ref": r}],
+                                 ["collect", {"ref": r}, None], ["select", {"ref": r}]])
+        elif with_pool and u < 0.53 and d not in has_child and sid is None:
+            op = ["append", [rng.choice(VALUES) for _ in nm]]
+        elif u < 0.34:
             k = rng.choice(["select", "select", "select1", "filter", "take"])
             if k == "filter":
                 op = [k, [rng.randint(0, 1) if rng.random() < 0.6 else 1 for _ in range(rng.choice([n, n, n, max(0, n - 1), n + 1, 1]))]]
@@ -1147,6 +1416,10 @@ def _rand_hcase(rng, malformed=False):
         case["hsteps"].append({"src": src, "op": op})
         if op[0] in ("list", "mat", "rowcount"):
             continue
+        if op[0] == "append":
+            rws.append(list(op[1]))
+            continue
+        op = _deref(op, case.get("pool", []))
         kind, want, rsid = P.expect({"src": src, "lazy": False, "op": op if op[0] != "add" else ["add", op[1], False]})
         if kind == "frame":
             if op[0] in H_LAZY:
